@@ -91,9 +91,9 @@ fn run_schedule(cx: &mut Ctx, ex: &Exchange, r: &mut Rng, mode: usize) {
     // (the body is written into a buffer of ONE such size for the whole exchange: a size at which nothing fits
     // must not exist)
     let fixed_body_cap = *r.pick(&[20usize, 21, 22, 261, 262, 263, 4103, 4104]);
-    let cap_of = |r: &mut Rng| -> usize { match mode { 0 => 100000, 1 => 1 + r.below(8), 2 => *r.pick(&[5usize, 6, 7, 16, 30, 64]), 3 => r.range(1, 300), 5 => *r.pick(&[64usize, 300, 5000]), _ => *r.pick(&[1usize, 2, 3, 20, 100000]) } };
-    let big = ex.payload.len() > 1000;
-    let step_of = |r: &mut Rng| -> usize { match mode { 0 | 5 => 100000, 1 => if big { 37 } else { 1 }, 2 => if big { 50 } else { 1 + r.below(4) }, 3 => r.range(1, 60) * if big { 10 } else { 1 }, _ => *r.pick(&[1usize, 2, 7, 100000]) } };
+    let cap_of = |r: &mut Rng| -> usize { match mode { 0 => 100000, 1 => 1 + r.below(8), 2 => *r.pick(&[5usize, 6, 7, 16, 30, 64]), 3 => r.range(1, 300), 5 => *r.pick(&[64usize, 300, 5000]), 6 => *r.pick(&[20496usize, 20502, 20600, 30744, 65536]), _ => *r.pick(&[1usize, 2, 3, 20, 100000]) } };
+    let big = ex.payload.len() > 1000 || ex.stream.len() > 3000;
+    let step_of = |r: &mut Rng| -> usize { match mode { 0 | 5 | 6 => 100000, 1 => if big { 37 } else { 1 }, 2 => if big { 50 } else { 1 + r.below(4) }, 3 => r.range(1, 60) * if big { 10 } else { 1 }, _ => *r.pick(&[1usize, 2, 7, 100000]) } };
     let query = |cx: &mut Ctx, r: &mut Rng| { if mode != 0 && r.chance(1, 4) { cx.op("canproceed"); } };
     let mut arrived = 0usize;
     let mut soff = 0usize;
@@ -337,6 +337,54 @@ pub fn c01(cx: &mut Ctx) {
             run_schedule(cx, &ex, &mut r, s % 5);
         }
     }
+    // a chunked request body of several default-sized chunks (25 000 .. 41 000 bytes, not periodic): offered in
+    // one call with room for three or four chunks, with room for two, in pieces, through small buffers
+    for (k, plen) in [25000usize, 30721, 41000].iter().enumerate() {
+        let mut x: u32 = 0x9e3779b9 ^ (k as u32);
+        let payload: Vec<u8> = (0..*plen).map(|_| { x ^= x << 13; x ^= x >> 17; x ^= x << 5; (x >> 8) as u8 }).collect();
+        let mut stream = b"HTTP/1.1 200 OK\r\nContent-Length: 2\r\n\r\nok".to_vec();
+        let msglen = stream.len();
+        stream.extend_from_slice(NEXT);
+        let ex = Exchange { req: "POST HTTP/1.1 http://a.test/path?q=1 1 x-trace 616263".into(), payload, stream, msglen, forbid: None, close: false, expect: false, body_method: true };
+        for (s, mode) in [0usize, 6, 6, 6, 3, 5].iter().enumerate() {
+            let mut r = cx.case("xb");
+            let _ = s;
+            cx.meta(&format!("group b{}", k));
+            cx.meta(&format!("msglen {}", ex.msglen));
+            cx.meta(&format!("payload {}", hx(&ex.payload)));
+            run_schedule(cx, &ex, &mut r, *mode);
+        }
+        let mut r = cx.case("xbc");
+        cx.meta(&format!("group bc{}", k));
+        cx.meta(&format!("msglen {}", ex.msglen));
+        cx.meta(&format!("payload {}", hx(&ex.payload)));
+        cx.meta("callapi");
+        run_call_schedule(cx, &ex, &mut r, 0);
+    }
+    // response heads with 100 .. 128 fields (the most the response parser takes): whole, byte by byte, in pieces
+    for (k, nf) in [100usize, 101, 113, 128].iter().enumerate() {
+        let mut head = b"HTTP/1.1 200 OK\r\n".to_vec();
+        for i in 0..(*nf - 1) { head.extend_from_slice(format!("f{}: {}\r\n", i, i % 7).as_bytes()); }
+        head.extend_from_slice(b"Content-Length: 3\r\n\r\n");
+        let mut stream = head.clone();
+        stream.extend_from_slice(b"abc");
+        let msglen = stream.len();
+        stream.extend_from_slice(NEXT);
+        let ex = Exchange { req: "GET HTTP/1.1 http://a.test/path?q=1 1 x-trace 616263".into(), payload: vec![], stream, msglen, forbid: None, close: false, expect: false, body_method: false };
+        for s in 0..5 {
+            let mut r = cx.case("xh");
+            cx.meta(&format!("group h{}", k));
+            cx.meta(&format!("msglen {}", ex.msglen));
+            cx.meta("payload -");
+            run_schedule(cx, &ex, &mut r, s);
+            let mut r = cx.case("xhc");
+            cx.meta(&format!("group hc{}", k));
+            cx.meta(&format!("msglen {}", ex.msglen));
+            cx.meta("payload -");
+            cx.meta("callapi");
+            run_call_schedule(cx, &ex, &mut r, s);
+        }
+    }
     for g in 0..groups {
         let mut r0 = Rng::for_case(cx.seed ^ 0x5151, g as u64);
         let ex = gen_exchange(&mut r0);
@@ -368,6 +416,52 @@ pub fn c01(cx: &mut Ctx) {
                 cx.meta(&format!("payload {}", hx(&ex.payload)));
                 run_xrun(cx, &ex, &mut r, s);
             }
+        }
+    }
+    // the size ladder over the two payloads of an exchange: the request body (both framings) and the response
+    // body (length-delimited, chunked in pieces of at most 4000, close-delimited), each whole, through buffers
+    // of up to 300 bytes, and through buffers that hold two or three default chunks
+    for l in super::ladder(cx.thorough, 65536) {
+        if l < 255 { continue; }
+        let mut x: u32 = 0x2545f491 ^ (l as u32);
+        let data: Vec<u8> = (0..l).map(|_| { x ^= x << 13; x ^= x >> 17; x ^= x << 5; (x >> 9) as u8 }).collect();
+        let mut exs: Vec<Exchange> = vec![];
+        for sized in [false, true] {
+            let mut stream = b"HTTP/1.1 200 OK\r\nContent-Length: 2\r\n\r\nok".to_vec();
+            let msglen = stream.len();
+            stream.extend_from_slice(NEXT);
+            let req = if sized { format!("PUT HTTP/1.1 http://a.test/path?q=1 1 content-length {}", hx(l.to_string().as_bytes())) } else { "POST HTTP/1.1 http://a.test/path?q=1 1 x-trace 616263".to_string() };
+            exs.push(Exchange { req, payload: data.clone(), stream, msglen, forbid: None, close: false, expect: false, body_method: true });
+        }
+        for framing in 0..3 {
+            let mut stream = match framing {
+                0 => format!("HTTP/1.1 200 OK\r\nContent-Length: {}\r\n\r\n", l).into_bytes(),
+                1 => b"HTTP/1.1 200 OK\r\nTransfer-Encoding: chunked\r\n\r\n".to_vec(),
+                _ => b"HTTP/1.1 200 OK\r\nX-One: 1\r\n\r\n".to_vec(),
+            };
+            if framing == 1 {
+                let mut off = 0;
+                while off < l { let n = (l - off).min(4000 - (off % 7)); stream.extend_from_slice(format!("{:x}\r\n", n).as_bytes()); stream.extend_from_slice(&data[off..off + n]); stream.extend_from_slice(b"\r\n"); off += n; }
+                stream.extend_from_slice(b"0\r\n\r\n");
+            } else { stream.extend_from_slice(&data); }
+            let msglen = stream.len();
+            if framing != 2 { stream.extend_from_slice(NEXT); }
+            exs.push(Exchange { req: "GET HTTP/1.1 http://a.test/path?q=1 1 x-trace 616263".into(), payload: vec![], stream, msglen, forbid: None, close: framing == 2, expect: false, body_method: false });
+        }
+        for (ei, ex) in exs.iter().enumerate() {
+            for mode in [0usize, 3, 6] {
+                let mut r = cx.case("xl");
+                cx.meta(&format!("group l{}-{}", l, ei));
+                cx.meta(&format!("msglen {}", ex.msglen));
+                cx.meta(&format!("payload {}", hx(&ex.payload)));
+                run_schedule(cx, ex, &mut r, mode);
+            }
+            let mut r = cx.case("xlc");
+            cx.meta(&format!("group lc{}-{}", l, ei));
+            cx.meta(&format!("msglen {}", ex.msglen));
+            cx.meta(&format!("payload {}", hx(&ex.payload)));
+            cx.meta("callapi");
+            run_call_schedule(cx, ex, &mut r, 0);
         }
     }
 }
